@@ -44,7 +44,19 @@ inline bool ReadProtocolValue(std::istream& stream, std::string& line, std::stri
     return true;
   }
 
-  if (!std::getline(stream, line)) {
+  bool has_line;
+  try {
+    has_line = static_cast<bool>(std::getline(stream, line));
+  } catch (std::ios_base::failure const&) {
+    // The owner of the stream enabled exceptions on it. Finding no further line sets
+    // failbit, which is how the end of the stream is found and not an error here.
+    if (stream.bad()) {
+      throw;
+    }
+    has_line = false;
+  }
+
+  if (!has_line) {
     if (!required) {
       return false;
     }
